@@ -437,18 +437,18 @@ def walksInTargetContext : Kind → Bool
 /-- the statements of a routine's `$ref` block as the model reads them (tokens of the generated table):
     isEmpty test; the key of the in-progress set and of the backtrack table is THIS routine's kind plus the text
     (7245059: an entry under a key is registered by the routine of that kind only, so the ok-check in the
-    callbacks is unreachable and `unvisit` has no kind test); value present → return; key in progress → callback (ok-checked assertion: `unvisit` skips
-    values of another kind); visitRef; whole-file branch (decode the element, MOVE documentPath, set the value);
-    fragment branch (local copy, resolveComponent, recursive call on the copy — for path items only when the
-    copy is a reference —, set the value); deferred unvisitRef LAST (error returns and the swallowed
-    errMUST… leave the text in progress) -/
+    callbacks is unreachable and `unvisit` has no kind test); value present → return; key in progress → callback;
+    visitRef; whole-file branch (decode the element, MOVE documentPath, set the value); fragment branch (local copy,
+    resolveComponent, recursive call on the copy — for path items only when the copy is a reference —, `errMUST…`
+    out of it swallowed only `&& resolved.isEmpty()` (3c3716e), set the value); deferred unvisitRef LAST (error
+    returns and the swallowed errMUST… of an empty target leave the key in progress) -/
 def skeletonSteps (k : Kind) : List String :=
   ["empty", "key:own-kind", "value", "shouldVisit:checked", "visit", "single(", "elem",
    (if movesDocumentPath k then "load:moves" else "load:stays")] ++
   (if k = .pathItem then ["recurse:ifRef", "setValue"] else ["setValue", "setRefPath:moved"]) ++
   [")", "fragment(", "copy"] ++
   (if walksInTargetContext k then ["component:switch", "recurse:ifRef", "setValue"]
-   else ["component:local", "fail", "recurse:swallowEmpty", "setValue", "setRefPath:target"]) ++
+   else ["component:local", "fail", "recurse:swallowEmptyTarget", "setValue", "setRefPath:target"]) ++
   [")"] ++ (if k = .pathItem then ["keepRef"] else []) ++ ["defer:unvisit"]
 
 def kindsByGoName : List Kind :=
@@ -457,7 +457,7 @@ def kindsByGoName : List Kind :=
 /-- The functions `stepGo` / `docLoadGo` / `unvisit` / `loadDoc` were written from, as they were read: the two
     shortest as text (`unescGo` = `~1` first, then `~0`; a reference without `#` is a whole file), the others as the
     digest of signature and body. A change of any of them breaks `skeleton_matches_model`: re-read it, bring the
-    model in line, then update the digest. (Digests at repository commit dfc5235.) -/
+    model in line, then update the digest. (Digests at repository commit bfa9f46; `resetVisitedPathItemRefs` empties the in-progress set, the backtrack table and the documents cache — `St.reset`.) -/
 def frozen : List (String × String) :=
   [("drillIntoField", "sha256:230fefe7d39d4741"),
    ("isSingleRefElement", "{ return !strings.Contains(ref, \"#\") }"),
@@ -465,6 +465,8 @@ def frozen : List (String × String) :=
    ("loadFromDataWithPathInternal", "sha256:6ccad2f87e2fe281"),
    ("loadFromURIInternal", "sha256:bbc70f746eeaaa24"),
    ("loadSingleElementFromURI", "sha256:0a809f24ce12af89"),
+   -- resetVisitedPathItemRefs: visitedPathItemRefs, visitedRefs, visitedPath, backtrack are emptied, visitedDocuments = nil
+   ("resetVisitedPathItemRefs", "sha256:76a92f947423e135"),
    ("resolveComponent", "sha256:14c4da81ffb14b3b"),
    ("resolvePath", "sha256:06f2e27942d0a986"),
    ("resolvePathWithRef", "sha256:f16cea032f5e4a16"),
